@@ -165,12 +165,18 @@ func c08Retx(c *h.Ctx, id string, r *rand.Rand) {
 // generous number of ticks the dead nonce list must be empty - map and expiry queue alike.
 func c08DnlBurst(c *h.Ctx, id string, r *rand.Rand) {
 	c.Eval(1)
-	s := fwsim.New(fwsim.Options{CsAdmit: false, CsServe: false, CsCapacity: 4, DnlLifetimeMs: 60,
+	// one case in three configures a dead-nonce lifetime of 0 ms (the smallest value the configuration
+	// allows): the records then fall due at the first sweep after they were made
+	zero := r.Intn(3) == 0
+	s := fwsim.New(fwsim.Options{CsAdmit: false, CsServe: false, CsCapacity: 4, DnlLifetimeMs: 60, DnlLifetimeZero: zero,
 		FibAlgo: []string{"nametree", "hashtable"}[r.Intn(2)]})
 	s.AddFace(1, true, defn.PointToPoint)
 	s.AddFace(2, false, defn.PointToPoint)
 	px, _ := enc.NameFromStr("/x")
 	s.Fib.InsertNextHopEnc(px, 2, 1)
+	if zero {
+		c.Count("dead_nonce_bursts_with_lifetime_zero", 1)
+	}
 	n := 120 + r.Intn(300)
 	life := 20
 	for i := 0; i < n; i++ {
@@ -199,7 +205,7 @@ func c08DnlBurst(c *h.Ctx, id string, r *rand.Rand) {
 	}
 	c.Count("dead_nonce_burst_records", int64(recorded))
 	if a, q := table.VerifDnlLen(dnl); a != 0 || q != 0 {
-		c.Violation("C08:dead-nonces-not-reclaimed", id, fmt.Sprintf("%d Interests expired together and left %d dead-nonce records; after their 60 ms lifetime and %d maintenance ticks %d records remain (%d still queued for expiry)", n, recorded, ticks, a, q), map[string]any{"interests": n})
+		c.Violation("C08:dead-nonces-not-reclaimed", id, fmt.Sprintf("%d Interests expired together and left %d dead-nonce records; after their lifetime (60 ms, or 0 ms when configured so: %v) and %d maintenance ticks %d records remain (%d still queued for expiry)", n, recorded, zero, ticks, a, q), map[string]any{"interests": n, "configured_lifetime_zero": zero})
 		return
 	}
 	if pit := s.T.GetNumPitEntries(); pit != 0 {
